@@ -60,7 +60,7 @@ func (e *env) outerOfList() *scope {
 		sc = sc.parent
 	}
 	if sc.vars == nil {
-		panic(Unspec("Let into a nil VarMap"))
+		sc.vars = map[string]interface{}{} // nil VarMap: the runtime keeps its own bottom map
 	}
 	return sc
 }
@@ -1149,6 +1149,8 @@ func (e *env) api(s *API) {
 			sc = sc.parent
 		}
 		if sc.vars == nil {
+			// with a nil VarMap it is not fixed whether "outermost template scope" means the (absent)
+			// VarMap level or the template's top-level body
 			panic(Unspec("LetGlobal with a nil VarMap"))
 		}
 		sc.vars[s.Name] = v
